@@ -786,7 +786,7 @@ class FRAG(Command):
         """
         super(FRAG, self).__init__(shx, spline)
         params, _ = self._parse_line(spline)
-        self.code = params[0]
+        self.code = params[0] if params else 17
         self.cell = params[1:7]
 
 
